@@ -1,7 +1,7 @@
 //! A converter to convert between the Garble Circuit and the Bristol fashion circuit format.
 //! https://nigelsmart.github.io/MPC-Circuits/
 
-use crate::circuit::{Circuit, Gate, PANIC_RESULT_SIZE_IN_BITS};
+use crate::circuit::{Circuit, Gate, MAX_GATES, PANIC_RESULT_SIZE_IN_BITS};
 use std::{
     collections::{HashMap, HashSet},
     fs::File,
@@ -334,7 +334,8 @@ impl Circuit {
             // more wires than the file can assign (or fewer wires than inputs / outputs) is
             // malformed. Checking this here also bounds all allocations by the size of the file.
             let lines: Vec<String> = lines.collect();
-            if input_wires_num > wires_num
+            if wires_num > MAX_GATES
+                || input_wires_num > wires_num
                 || num_output_wires > wires_num
                 || wires_num - input_wires_num > lines.len()
             {
@@ -364,7 +365,7 @@ impl Circuit {
             }
             let num_inputs: usize = parts[0].parse()?;
             let num_outputs: usize = parts[1].parse()?;
-            if num_outputs != 1 || parts.len() != num_inputs + 4 {
+            if num_outputs != 1 || num_inputs.checked_add(4) != Some(parts.len()) {
                 return Err(FromBristolError::MalformedLine(line_str));
             }
             let input_wires: Vec<usize> = parts[2..(2 + num_inputs)]
